@@ -251,8 +251,195 @@ def r4_dependent_product(repo: Repo, rep):
                     rep.check(R, same, ub.site(p.ret_node), ub.fq, "accepted b rows and their parameter rows are selected by the same mask", f"{fb[:60]}", fb[:60])
 
 
+# ------------------------------------------------------------------ primitives
+def _prim_atom(dim, opaque_bary=("_handle_sum_greater_1", "_compute_barycentric_grid", "_grid_enough_points", "_grid_has_n_points")):
+    from ..absdom.poly import RF
+    from ..absdom.symtensor import Vec
+    from .c10 import shape_atom
+
+    def atom(n, ev):
+        got = shape_atom(n, ev)
+        if got is not None:
+            return got
+        x = n
+        while isinstance(x, ast.Call) and isinstance(x.func, ast.Attribute) and x.func.attr in ("reshape", "view", "squeeze", "unsqueeze", "repeat"):
+            x = x.func.value
+        if isinstance(x, ast.Call):
+            ch = attr_chain(x.func) or ""
+            tail = ch.split(".")[-1]
+            if tail == "center" and ch.startswith("self."):
+                return Vec([RF.atom(f"c.{i}") for i in range(dim)])
+            if tail == "point" and ch.startswith("self."):
+                return Vec([RF.atom(f"pt.{i}") for i in range(dim)]) if dim > 1 else RF.atom("pt.0")
+            if tail == "side" and ch.startswith("self."):
+                return RF.atom("side")
+            if tail in opaque_bary and ch.startswith("self."):
+                return Vec([RF.atom("u"), RF.atom("v")])  # barycentric pair (its admissibility is R-C11-4 / the grid helpers)
+            if tail == "_equidistant_points_in_circle":
+                return Vec([RF.atom("G.0"), RF.atom("G.1")])
+            if ch in ("torch.linspace", "torch.arange"):
+                return RF.atom("L")
+            if tail == "compute_n_from_density":
+                return RF.atom("n")
+        if isinstance(x, ast.Name) and x.id == "n":
+            return RF.atom("n")
+        if isinstance(x, ast.Call):
+            pass
+        if isinstance(x, ast.Subscript) and isinstance(x.value, ast.Call) and attr_chain(x.value.func) in ("torch.linspace",):
+            return RF.atom("L")
+        return None
+    return atom
+
+
+def r5_primitive_parametrisations(repo: Repo, rep):
+    from ..absdom.poly import RF, NotPoly
+    from ..absdom.symtensor import NotSym, SymEval, Vec, binop, reduce_squares
+    from ..inline import expand_helpers
+    R5 = rep.rule("R-C01-5", "polygon samplers return origin + u*(corner_1 - origin) + v*(corner_2 - origin) for the barycentric pair (u, v) — the inverse of the "
+                  "barycentric solve used by _contains", floor=4,
+                  why="a transposed or mis-paired direction matrix maps admissible barycentric pairs outside every non-symmetric shape")
+    R6 = rep.rule("R-C01-6", "radial samplers return points with |p - centre|^2 == (radial variate)^2 (== radius^2 on boundaries), as a polynomial identity "
+                  "after sin^2 + cos^2 = 1", floor=5, why="scaling or shifting in the wrong order puts the points on a sphere around another centre")
+    R7 = rep.rule("R-C01-7", "interval samplers return lower + t*(upper - lower) with t in [0, 1); end-point samplers return the bound itself", floor=4,
+                  why="any other affine combination leaves the interval for some bounds")
+    DOMp = "problem.domains"
+    o = Vec([RF.atom("o.0"), RF.atom("o.1")])
+    pv = Vec([RF.atom("p.0"), RF.atom("p.1")])
+    q = Vec([RF.atom("q.0"), RF.atom("q.1")])
+    for mod, cname in (("parallelogram", "Parallelogram"), ("triangle", "Triangle")):
+        ci = repo.cls(f"{DOMp}.domain2D.{mod}.{cname}")
+        for mname in ("sample_random_uniform", "sample_grid"):
+            fi = ci.methods.get(mname)
+            if fi is None:
+                raise AnalysisError(f"{cname}.{mname} vanished")
+            rep.saw(fi)
+            seen = set()
+            for p in paths(fi.node):
+                if p.ret is RAISE or p.ret is None:
+                    continue
+                r = p.ret
+                val = r.args[0] if isinstance(r, ast.Call) and attr_chain(r.func) == "Points" and r.args else r
+                val = expand_helpers(repo, ci, val, accept=lambda f: f.name.startswith("_construct"))
+                key = dump(val)
+                if key in seen:
+                    continue
+                seen.add(key)
+
+                def atom(n, ev, base=_prim_atom(2)):
+                    got = base(n, ev)
+                    if got is not None:
+                        return got
+                    if isinstance(n, ast.Call) and attr_chain(n.func) == "torch.rand":
+                        return Vec([RF.atom("u"), RF.atom("v")])
+                    return None
+                ev = SymEval(atom)
+                try:
+                    v = ev.ev(val)
+                    want = binop("+", o, binop("+", binop("*", RF.atom("u"), binop("-", pv, o)), binop("*", RF.atom("v"), binop("-", q, o))))
+                    ok = isinstance(v, Vec) and v == want
+                    rep.check(R5, ok, fi.site(p.ret_node), fi.fq, "p = o + u*(c1 - o) + v*(c2 - o)", f"p = {v!r}"[:260], f"{v!r}"[:200])
+                except (NotSym, NotPoly) as err:
+                    rep.undecided(R5, fi.site(p.ret_node), fi.fq, "affine parametrisation evaluable", str(err))
+    # radial
+    specs = [("domain2D.circle", "Circle", 2, False), ("domain2D.circle", "CircleBoundary", 2, True), ("domain3D.sphere", "Sphere", 3, False), ("domain3D.sphere", "SphereBoundary", 3, True)]
+    from .c05 import _domain_class_of
+    for mod, cname, dim, is_b in specs:
+        ci = repo.cls(f"{DOMp}.{mod}.{cname}")
+        dci = _domain_class_of(repo, ci)
+        for mname in ("sample_random_uniform", "sample_grid"):
+            fi = ci.methods.get(mname)
+            if fi is None:
+                continue
+            if cname == "Sphere" and mname == "sample_grid":
+                continue  # box grid filtered by the norm + random top-up: the filter is the membership predicate itself
+            rep.saw(fi)
+            for p in paths(fi.node):
+                if p.ret is RAISE or p.ret is None:
+                    continue
+                r = p.ret
+                val = r.args[0] if isinstance(r, ast.Call) and attr_chain(r.func) == "Points" and r.args else r
+                val = expand_helpers(repo, ci, val, domain_cls=dci, accept=lambda f: f.name.startswith("_compute_center"))
+                ev = SymEval(_prim_atom(dim))
+                try:
+                    v = ev.ev(val)
+                    if not (isinstance(v, Vec) and len(v) == dim):
+                        rep.undecided(R6, fi.site(p.ret_node), fi.fq, f"{dim}-vector per row", repr(v)[:80])
+                        break
+                    c = Vec([RF.atom(f"c.{i}") for i in range(dim)])
+                    d = binop("-", v, c)
+                    sq = RF.const(0)
+                    for x in d.c:
+                        sq = sq + x * x
+                    sq = reduce_squares(sq, ev)
+                    rad = RF.atom("r")
+                    if is_b:
+                        ok = sq == rad * rad
+                        want = "r^2"
+                    else:
+                        us = sorted(a for a in sq.atoms() if a.startswith("U"))
+                        gs = sorted(a for a in sq.atoms() if a.startswith("G."))
+                        if gs:
+                            ok = sq == rad * rad * (RF.atom("G.0") * RF.atom("G.0") + RF.atom("G.1") * RF.atom("G.1"))
+                            want = "r^2 |G|^2 (G: unit-disc grid)"
+                        else:
+                            from fractions import Fraction
+                            ok = len(us) == 1 and sq == rad * rad * RF.atom(us[0], Fraction(2, dim))
+                            want = f"r^2 U^(2/{dim})  (<= r^2 since U in [0,1))"
+                    rep.check(R6, ok, fi.site(p.ret_node), fi.fq, f"|p - c|^2 == {want}", f"|p - c|^2 = {sq!r}"[:240], f"{sq!r}"[:200])
+                except (NotSym, NotPoly) as err:
+                    rep.undecided(R6, fi.site(p.ret_node), fi.fq, "radial parametrisation evaluable", str(err))
+                break
+    # interval
+    iv = repo.cls(f"{DOMp}.domain1D.interval.Interval")
+    for mname in ("sample_random_uniform", "sample_grid"):
+        fi = iv.methods.get(mname)
+        rep.saw(fi)
+        for p in paths(fi.node):
+            if p.ret is RAISE or p.ret is None:
+                continue
+            r = p.ret
+            val = r.args[0] if isinstance(r, ast.Call) and attr_chain(r.func) == "Points" and r.args else r
+            ev = SymEval(_prim_atom(1))
+            try:
+                v = ev.ev(val)
+                ts = sorted(a for a in v.atoms() if a.startswith("U") or a == "L") if isinstance(v, RF) else []
+                ok = isinstance(v, RF) and len(ts) == 1 and v == RF.atom("lb") + RF.atom(ts[0]) * (RF.atom("ub") - RF.atom("lb"))
+                rep.check(R7, ok, fi.site(p.ret_node), fi.fq, "p = lb + t*(ub - lb), t in [0, 1)", f"p = {v!r}", f"{v!r}")
+            except (NotSym, NotPoly) as err:
+                rep.undecided(R7, fi.site(p.ret_node), fi.fq, "convex combination evaluable", str(err))
+            break
+    sb = repo.cls(f"{DOMp}.domain1D.interval.IntervalSingleBoundaryPoint")
+    fi = sb.methods.get("sample_random_uniform")
+    rep.saw(fi)
+    for p in paths(fi.node):
+        if p.ret is RAISE or p.ret is None:
+            continue
+        val = p.ret.args[0] if isinstance(p.ret, ast.Call) and p.ret.args else p.ret
+        ev = SymEval(_prim_atom(1))
+        try:
+            v = ev.ev(val)
+            rep.check(R7, v == RF.atom("side"), fi.site(p.ret_node), fi.fq, "p = side(params)", f"p = {v!r}", f"{v!r}")
+        except (NotSym, NotPoly) as err:
+            rep.undecided(R7, fi.site(p.ret_node), fi.fq, "end point evaluable", str(err))
+        break
+    ib = repo.cls(f"{DOMp}.domain1D.interval.IntervalBoundary")
+    for mname in ("sample_random_uniform", "sample_grid"):
+        fi = ib.methods.get(mname)
+        rep.saw(fi)
+        for p in paths(fi.node):
+            if p.ret is RAISE or p.ret is None:
+                continue
+            t = dump(p.ret)
+            ok = "torch.where(" in t and "self.domain.lower_bound(" in t and "self.domain.upper_bound(" in t
+            w = [c for c in ast.walk(p.ret) if isinstance(c, ast.Call) and attr_chain(c.func) == "torch.where" and len(c.args) == 3]
+            ok = ok and bool(w) and "lower_bound" in dump(w[0].args[1]) and "upper_bound" in dump(w[0].args[2])
+            rep.check(R7, ok, fi.site(p.ret_node), fi.fq, "every boundary sample is the lower or the upper bound", t[:120], t[:120])
+            break
+
+
 def run(repo: Repo, rep):
     r1_facts(repo, rep)
+    r5_primitive_parametrisations(repo, rep)
     r2_filtering(repo, rep)
     r2_pullback(repo, rep, rule_id="R-C01-3")
     r4_dependent_product(repo, rep)
@@ -284,11 +471,28 @@ MUTANTS = [
     dict(id="C01-M12", file=_I, old="        index = torch.where(in_b)[0]\n        return points[index,]", new="        index = torch.where(torch.logical_not(in_b))[0]\n        return points[index,]", rule="R-C01-1", what="intersection density path keeps the points outside B"),
     dict(id="C01-M13", file=_U, old="        in_a = self.domain_a._contains(points=points_b, params=repeated_params)\n        # approximate", new="        in_a = self.domain_a._contains(points=points_a, params=repeated_params)\n        # approximate", rule=None, what="(control) union mask about a instead of b: still inside the union"),
 ]
+_CIf = "src/torchphysics/problem/domains/domain2D/circle.py"
+_PAf = "src/torchphysics/problem/domains/domain2D/parallelogram.py"
+_IVf = "src/torchphysics/problem/domains/domain1D/interval.py"
+_SPf = "src/torchphysics/problem/domains/domain3D/sphere.py"
+MUTANTS += [
+    dict(id="C01-M14", file=_CIf, old="        r *= radius\n", new="        r *= 2 * radius\n", rule="R-C01-6", what="disc samples with twice the radius"),
+    dict(id="C01-M15", file=_PAf, old="        points_in_dir_2 = bary_coords[:, :, 1:] * dir_2[:, None]", new="        points_in_dir_2 = bary_coords[:, :, 1:] * dir_1[:, None]", rule="R-C01-5", what="second barycentric coordinate along dir_1"),
+    dict(id="C01-M16", file=_IVf, old="        points *= ub - lb\n        points += lb\n        return Points(points.reshape(-1, self.space.dim), self.space)\n\n    def sample_grid", new="        points *= ub\n        points += lb\n        return Points(points.reshape(-1, self.space.dim), self.space)\n\n    def sample_grid", rule="R-C01-7", what="interval scaled by the upper bound"),
+    dict(id="C01-M17", file=_SPf, old="        points *= radius.item()\n        points = torch.add(points, center)", new="        points = radius.item() * torch.add(points, center)", rule="R-C01-6", what="sphere grid scaled after the shift"),
+    dict(id="C01-M18", file=_SPf, old="        z = torch.multiply(r, torch.sin(theta))\n        points = torch.cat((x, y, z), dim=2)", new="        z = torch.multiply(r, torch.cos(theta))\n        points = torch.cat((x, y, z), dim=2)", rule="R-C01-6", what="z uses cos(theta): not on the sphere"),
+]
+TWINS_EXTRA = [
+    dict(id="C01-T4", file=_PAf, old="        points = points_in_dir_1 + points_in_dir_2\n        points += origin[:, None, :]", new="        points = origin[:, None, :] + points_in_dir_2 + points_in_dir_1", what="commuted sum"),
+    dict(id="C01-T5", file=_CIf, old="        r *= radius\n", new="        r = radius * r\n", what="out-of-place scaling"),
+]
 MUTANTS = [m for m in MUTANTS if m["id"] != "C01-M13"]
 TWINS = [
     dict(id="C01-T1", file=_U, old="        valid_points = torch.logical_or(on_bound, torch.logical_not(inside))", new="        valid_points = torch.logical_not(torch.logical_and(torch.logical_not(on_bound), inside))", what="De Morgan"),
     dict(id="C01-T2", file=_H, old="    inside_b = domain_b._contains(grid_a, params)\n    if invert:\n        inside_b = torch.logical_not(inside_b)\n    index = torch.where(inside_b)[0]\n    return index",
          new="    member = domain_b._contains(grid_a, params)\n    keep = torch.logical_not(member) if invert else member\n    return torch.where(keep)[0]", what="conditional expression, renamed"),
-    dict(id="C01-T3", file=_CU, old="        in_b = self.domain_b._contains(points=points_a, params=repeated_params)\n        index = torch.where(torch.logical_not(in_b))[0]\n        return points_a[index,]",
+    *[], dict(id="C01-T3", file=_CU, old="        in_b = self.domain_b._contains(points=points_a, params=repeated_params)\n        index = torch.where(torch.logical_not(in_b))[0]\n        return points_a[index,]",
          new="        outside_b = ~self.domain_b._contains(points=points_a, params=repeated_params)\n        return points_a[torch.where(outside_b)[0],]", what="operator form"),
 ]
+
+TWINS = TWINS + TWINS_EXTRA
